@@ -90,7 +90,11 @@ def load_findings(pid):
 def ncases_of(mod, tier):
     if os.environ.get('VERIF_CASES'):
         return int(os.environ['VERIF_CASES'])
-    return mod.CASES[tier]
+    n = mod.CASES[tier]
+    if tier == 'thorough' and not getattr(mod, 'THOROUGH_VALIDATED', False):
+        # thorough tiers that were never run to completion on an idle machine are capped (DESIGN.md 8.6)
+        n = min(n, 4 * mod.CASES['quick'])
+    return n
 
 
 def load_check(pid):
@@ -307,6 +311,8 @@ def conclude(pid, mod, tier, seed, agg, t0, write_evidence=True):
     reasons = list(agg.get('extra_inconclusive', []))
     nontriv = len(agg['sigs'])
     minnt = mod.MIN_NONTRIVIAL[tier] if hasattr(mod, 'MIN_NONTRIVIAL') else 2
+    if tier == 'thorough' and not getattr(mod, 'THOROUGH_VALIDATED', False) and hasattr(mod, 'MIN_NONTRIVIAL'):
+        minnt = min(minnt, 3 * mod.MIN_NONTRIVIAL['quick'])
     if os.environ.get('VERIF_CASES'):
         minnt = 2
     single = agg['evaluations'] <= 1 and mod.CASES[tier] > 1   # replay
